@@ -150,6 +150,9 @@ def run_world(desc: dict[str, Any], *, scoped: bool = True, capture_logs: bool =
             return rng.choice(vals)
         kube.lag_fn = lag_fn
     kube.post_yields = int(desc.get('post_yields', 0))
+    # Requests take 1us of virtual time by default: in reality every cycle costs wall time, so float noise such as
+    # 'age = 2.9999999999999996 < backoff = 3' resolves itself; with a frozen clock it would re-arm forever at one instant.
+    kube.base_latency = float(desc.get('latency', 1e-6))
 
     # ---- actor ---------------------------------------------------------------------------
     def apply_actor(op: list[Any]) -> None:
